@@ -327,6 +327,19 @@ def merge_terms(ctx, m, c, ta, tb, pa, pb):
     return simp(z3.If(c, ta, tb))
 
 
+def _join_ann(a, b):
+    """Annotation of a value that is either of two: equal annotations, or a container annotation whose element shape
+    is known on one side only and unconstrained (empty literal, no appends yet) on the other."""
+    if a == b:
+        return a
+    for x, y in ((a, b), (b, a)):
+        if x is not None and x[0] in ("list", "set") and (y is None or (y[0] == x[0] and len(y) > 1 and y[1] is None)):
+            if y is None:
+                continue
+            return x
+    return None
+
+
 def merge_paths(ctx, base, c, pt, pf):
     """Join two paths that fell through the arms of `if c:` into one path with ite-values (None if the states
     cannot be joined). Facts learned inside an arm are kept guarded by the arm's condition."""
@@ -344,9 +357,9 @@ def merge_paths(ctx, base, c, pt, pf):
             continue
         if isinstance(a, Val) and isinstance(b, Val):
             if z3.eq(simp(a.t), simp(b.t)):
-                m.env[name] = a if a.ann == b.ann else Val(a.t, None, own=a.own, deep=a.deep, src=a.src)
+                m.env[name] = a if a.ann == b.ann else Val(a.t, _join_ann(a.ann, b.ann), own=a.own, deep=a.deep, src=a.src)
                 continue
-            v = Val(merge_terms(ctx, m, c, a.t, b.t, pt, pf), a.ann if a.ann == b.ann else None,
+            v = Val(merge_terms(ctx, m, c, a.t, b.t, pt, pf), _join_ann(a.ann, b.ann),
                     own="imm" if (a.own == "imm" and b.own == "imm") else ("borrow" if "borrow" in (a.own, b.own) else "fresh"),
                     deep=a.deep and b.deep, src=a.src if a.src is b.src else None)
             v.root = a.root if a.root == b.root else None
@@ -432,7 +445,8 @@ def s_If(ctx, fr, path, st):
         n_ob = len(ctx.obligations)
         outs_t = exec_block(ctx, fr, pt, st.body)
         outs_f = exec_block(ctx, fr, pf, st.orelse) if st.orelse else [(pf, Outcome("fall"))]
-        if len(outs_t) == 1 and len(outs_f) == 1 and outs_t[0][1].kind == "fall" and outs_f[0][1].kind == "fall":
+        if not getattr(ctx, "no_merge", False) and len(outs_t) == 1 and len(outs_f) == 1 \
+                and outs_t[0][1].kind == "fall" and outs_f[0][1].kind == "fall":
             m = merge_paths(ctx, p, cond, outs_t[0][0], outs_f[0][0])
             if m is not None:
                 out.append((m, Outcome("fall")))
@@ -488,12 +502,22 @@ class _LoopInv:
         self.inv_node = ast.parse(spec["inv"], mode="eval").body if spec.get("inv") else None
         self.where = f"{'while' if isinstance(st, ast.While) else 'for'} loop at line {st.lineno}"
         self.spec_mi = spec_mi
+        # heap locations the body may write ("<local>.<field>"): arbitrary (of their declared shape) at the loop
+        # head, constrained by the invariant only
+        self.modifies = list(spec.get("modifies") or [])
+        self.mod_fields = set()
+        for m in self.modifies:
+            root, attr = m.split(".")
+            if attr.startswith("__") and not attr.endswith("__") and fr.cls is not None:
+                attr = f"_{fr.cls.name.lstrip('_')}{attr}"
+            self.mod_fields.add(attr)
 
     def _frame(self):
         # the invariant is an expression over the locals of the real function; names it does not find there
         # (spec functions, classes) are resolved in the sidecar module
         f = Frame(self.fr.mi, func=self.fr.func, cls=self.fr.cls, spec=True)
         f.fallback_mi = self.spec_mi
+        f.old_path = getattr(self.ctx.current, "entry_path", None)
         return f
 
     def check(self, p, label):
@@ -543,16 +567,44 @@ class _LoopInv:
                 path.assume(f, "loop invariant (shape)")
             path.env[n] = Val(t, a, own="fresh" if a is not None and a[0] == "list" else "borrow")
 
+    def havoc_heap(self, path):
+        from .contracts import make_symbolic
+        ctx = self.ctx
+        for m in self.modifies:
+            rootname, attr0 = m.split(".")
+            root = path.env.get(rootname)
+            if not isinstance(root, Val):
+                raise Unsupported(f"loop invariant modifies {m}: {rootname} is not a local value ({self.where})")
+            attr = attr0
+            if attr.startswith("__") and not attr.endswith("__") and self.fr.cls is not None:
+                attr = f"_{self.fr.cls.name.lstrip('_')}{attr}"
+            ann = None
+            from .expr import possible_classes
+            classes = possible_classes(ctx, path, root) or []
+            for ci in classes:
+                ann = ci.all_fields().get(attr0) or ctx.extern_field_ann(ci, attr)
+                if ann is not None:
+                    break
+            nv = make_symbolic(ctx, path, "lv_" + attr, ann)
+            nv.own = "borrow"
+            ctx.write_field(path, root, attr, nv)
+
     def snapshot(self, path):
         return (dict(path.heap), dict(path.fresh), dict(path.sets), dict(path.dicts))
 
     def check_frame(self, snap, r):
         now = (r.heap, r.fresh, r.sets, r.dicts)
-        for a0, a1 in zip(snap, now):
+        for idx, (a0, a1) in enumerate(zip(snap, now)):
             for k in a0:
+                if idx == 0 and k in self.mod_fields:
+                    continue        # declared in the invariant's modifies; writes are still checked against the function's frame
+                if idx == 1 and isinstance(k, tuple) and k[0] in self.mod_fields:
+                    continue
                 if k not in a1 or not _same_term(a0[k], a1[k]):
-                    raise Unsupported(f"loop body changes the heap ({self.where})")
+                    raise Unsupported(f"loop body changes the heap outside the invariant's modifies ({self.where})")
         for k, t in r.heap.items():
+            if k in self.mod_fields:
+                continue
             # fields first read inside the body appear as their initial arrays: reads, not writes
             if k not in snap[0] and not (z3.is_const(t) and t.decl().kind() == z3.Z3_OP_UNINTERPRETED):
                 raise Unsupported(f"loop body changes the heap ({self.where})")
@@ -572,6 +624,7 @@ def s_While(ctx, fr, path, st):
     li = _LoopInv(ctx, fr, st, spec)
     li.check(path, "entry")
     li.havoc(path, sorted(assigned_names(st.body)))
+    li.havoc_heap(path)
     path.note(f"{li.where}: summarised by the sidecar invariant; termination not proved")
     out = []
     for path in li.assume(path):
@@ -606,6 +659,7 @@ def exec_for_with_invariant(ctx, fr, path, st, spec):
         li.check(p, "entry")
         names = sorted(set(assigned_names(st.body)) - set(_target_names(st.target)))
         li.havoc(p, names)
+        li.havoc_heap(p)
         p.note(f"{li.where}: summarised by the sidecar invariant")
         K = ctx.new("k_loop", smt.IntS)
         # ---- after the loop
@@ -627,7 +681,13 @@ def exec_for_with_invariant(ctx, fr, path, st, spec):
             snap = li.snapshot(it)
             el = src.elem(it, K)
             for q in assign_to(ctx, fr, it, st.target, el):
-                for r, o in exec_block(ctx, fr, q, st.body):
+                saved_nm = getattr(ctx, "no_merge", False)
+                ctx.no_merge = saved_nm or (spec.get("merge") is False)
+                try:
+                    body_outs = exec_block(ctx, fr, q, st.body)
+                finally:
+                    ctx.no_merge = saved_nm
+                for r, o in body_outs:
                     li.check_frame(snap, r)
                     if o.kind in ("fall", "continue"):
                         r.env["_k"] = Val(V.VInt(simp(K + 1)), ("int",))
